@@ -5,8 +5,24 @@
 // goroutine to the main thread). Pass 0 records, with strace, the main thread's
 // sequence of file-system-mutating system calls for one `relic sign` run; then
 // for EVERY boundary k the run is repeated with SIGKILL delivered on entry to
-// call k, and again with call k failing (ENOSPC/EIO/EACCES). After each run
-// the directory is inspected against the statement.
+// call k, and again with call k failing - with ONE errno per call for data
+// calls and with EVERY errno the call can legitimately return for the calls
+// that change directory entries (rename*, unlink*, link*, fchmod*, ...; the
+// thorough tier uses the full alphabet at every call). After each run the
+// directory is inspected against the statement.
+//
+// Two-fault histories: a run whose commit step (rename family) was made to
+// fail goes on to make further calls (clean-up, a fallback, the error
+// message). For every errno of the rename alphabet the run is repeated once
+// per LATER main-thread call with SIGKILL on entry to that call as well; the
+// destination must be old-or-new-complete there too.
+//
+// Same-path (in == out, one link) scenarios: the statement exempts a path that
+// IS patched in place. Whether it is, is read off the file system, not off
+// relic's code: if the uninterrupted run leaves the path on the SAME inode, the
+// path was patched in place (exempt, recorded); if the path holds a NEW inode,
+// the run replaced it by another file, and then the oracle applies at every
+// boundary of that run - whatever mixture of strategies produced it.
 package main
 
 import (
@@ -23,6 +39,7 @@ import (
 	"sort"
 	"strings"
 	"sync"
+	"sync/atomic"
 	"syscall"
 	"time"
 
@@ -30,7 +47,10 @@ import (
 	"verif/vlib"
 )
 
-const traceSet = "openat,write,pwrite64,fchmod,fchmodat,close,unlink,unlinkat,rename,renameat,renameat2,ftruncate,link,linkat,symlinkat,mkdirat"
+// every system call that changes file data, file metadata or a directory entry
+// (data can also move with copy_file_range/sendfile/splice: io.Copy between two
+// *os.File uses them), plus open/close
+const traceSet = "openat,open,creat,write,pwrite64,writev,pwritev,pwritev2,copy_file_range,sendfile,splice,fchmod,fchmodat,chmod,close,unlink,unlinkat,rmdir,rename,renameat,renameat2,ftruncate,truncate,fallocate,link,linkat,symlink,symlinkat,mkdir,mkdirat"
 
 var run *vlib.Run
 var driver = "/verif/.build/bin/c13driver"
@@ -51,6 +71,59 @@ type scenario struct {
 	// whatever the killed run left behind still there. Its output must be the
 	// complete signed Follow file.
 	Follow string
+	// PreSign: history - the input was signed in place EARLIER by an
+	// uninterrupted run with these extra arguments (done once, before pass 0).
+	PreSign []string
+	// Append: this many bytes of payload follow the (possibly pre-signed) image
+	// (self-extracting / bundled-runtime executables carry such a tail).
+	Append int
+	// TwoFault: member of the quick tier's two-fault family
+	TwoFault bool
+}
+
+// inputs holds the derived input of every scenario (filled before pass 0,
+// read-only afterwards).
+var inputs = map[string][]byte{}
+
+func appendedPayload(n int) []byte {
+	pat := []byte("C13-APPENDED-PAYLOAD.")
+	out := make([]byte, n)
+	for i := range out {
+		out[i] = pat[i%len(pat)]
+	}
+	return out
+}
+
+// buildInput derives the scenario's input from its fixture: optional earlier
+// (uninterrupted, untraced) in-place signing run, optional appended payload.
+func (s scenario) buildInput(scratch string) []byte {
+	b, err := os.ReadFile(filepath.Join(relicx.Packages, s.Input))
+	if err != nil {
+		panic(err)
+	}
+	if s.PreSign != nil {
+		os.RemoveAll(scratch)
+		os.MkdirAll(scratch, 0o755)
+		os.WriteFile(filepath.Join(scratch, "relic.yml"), []byte(conf), 0o644)
+		f := filepath.Join(scratch, s.InName)
+		os.WriteFile(f, b, 0o644)
+		args := append([]string{"-c", "relic.yml", "sign", "-k", "rsaA", "-f", s.InName}, s.PreSign...)
+		cmd := exec.Command(driver, args...)
+		cmd.Dir = scratch
+		cmd.Env = append(os.Environ(), "HOME="+scratch)
+		if out, err := cmd.CombinedOutput(); err != nil {
+			fmt.Printf("HARNESS-ERROR: scenario %s: the earlier signing run fails: %v: %s\n", s.Name, err, out)
+			os.Exit(2)
+		}
+		if b, err = os.ReadFile(f); err != nil {
+			panic(err)
+		}
+		os.RemoveAll(scratch)
+	}
+	if s.Append > 0 {
+		b = append(append([]byte(nil), b...), appendedPayload(s.Append)...)
+	}
+	return b
 }
 
 const conf = `tokens:
@@ -92,7 +165,11 @@ func (s scenario) prepare(dir string, destPresent bool) prepared {
 	os.MkdirAll(dir, 0o755)
 	os.WriteFile(filepath.Join(dir, "relic.yml"), []byte(conf), 0o644)
 	p := prepared{dir: dir, in: filepath.Join(dir, s.InName)}
-	copyFile(filepath.Join(relicx.Packages, s.Input), p.in)
+	if b, ok := inputs[s.Name]; ok {
+		os.WriteFile(p.in, b, 0o644)
+	} else {
+		copyFile(filepath.Join(relicx.Packages, s.Input), p.in)
+	}
 	p.inBytes, _ = os.ReadFile(p.in)
 	if s.OutName == "" {
 		p.out = p.in
@@ -179,6 +256,11 @@ func mainCalls3(log []byte) (pid string, calls []string, lines []string, rtBefor
 
 const hangLimit = 90 * time.Second
 
+// maxLaterCalls bounds the second-fault points after one injected commit
+// failure (the unchanged tree makes 2: unlink the temporary file, print the
+// error); a tree that does more work there is followed this far.
+const maxLaterCalls = 32
+
 type result struct {
 	hung   bool
 	rc     int
@@ -187,11 +269,13 @@ type result struct {
 	stderr string
 }
 
-func trace(dir string, argv []string, inject string) result {
+func trace(dir string, argv []string, injects ...string) result {
 	logf := filepath.Join(dir, ".strace.log")
 	args := []string{"-f", "-qq", "-o", logf, "-e", "signal=none", "-e", "trace=" + traceSet}
-	if inject != "" {
-		args = append(args, "-e", "inject="+inject)
+	for _, inject := range injects {
+		if inject != "" {
+			args = append(args, "-e", "inject="+inject)
+		}
 	}
 	args = append(args, driver)
 	args = append(args, argv...)
@@ -396,15 +480,69 @@ func faultOnHelper(log []byte, mode string) bool {
 	return false
 }
 
-func errnoFor(call string) string {
-	switch call {
-	case "write", "pwrite64", "ftruncate", "mkdirat", "symlinkat":
-		return "ENOSPC"
-	case "openat", "unlink", "unlinkat", "link", "linkat":
-		return "EACCES"
-	}
-	return "EIO"
+// errnoAlphabet: per call, the errnos it can legitimately return for a correct
+// invocation on a local, network or bind-mounted file system (man 2 pages;
+// without the ones that contradict the state the process itself created, e.g.
+// ENOENT for an unlink of a file that exists, and without EINTR/EAGAIN: no
+// signals are delivered). The FIRST entry is the one used where only one errno
+// per call is injected.
+var errnoAlphabet = map[string][]string{
+	"rename":          {"EIO", "EXDEV", "EBUSY", "EACCES", "EPERM", "ENOSPC", "EDQUOT", "EROFS", "ENOENT"},
+	"unlink":          {"EACCES", "EPERM", "EBUSY", "EIO", "EROFS"},
+	"link":            {"EACCES", "EPERM", "EEXIST", "EXDEV", "ENOSPC", "EDQUOT", "EIO", "EROFS", "EMLINK"},
+	"symlink":         {"ENOSPC", "EACCES", "EPERM", "EEXIST", "EDQUOT", "EIO", "EROFS"},
+	"mkdir":           {"ENOSPC", "EACCES", "EPERM", "EEXIST", "EDQUOT", "EIO", "EROFS", "EMLINK"},
+	"rmdir":           {"EACCES", "EPERM", "EBUSY", "EIO", "EROFS", "ENOTEMPTY"},
+	"chmod":           {"EIO", "EPERM", "EROFS", "EOPNOTSUPP"},
+	"open":            {"EACCES", "EPERM", "ENOSPC", "EDQUOT", "EIO", "EROFS", "ENOENT", "EEXIST", "EMFILE", "ENFILE", "ENOMEM", "ETXTBSY"},
+	"write":           {"ENOSPC", "EDQUOT", "EFBIG", "EIO"},
+	"copy_file_range": {"ENOSPC", "EDQUOT", "EFBIG", "EIO", "EXDEV", "ENOSYS", "EINVAL", "EOPNOTSUPP"},
+	"sendfile":        {"ENOSPC", "EIO", "EINVAL", "ENOSYS"},
+	"splice":          {"ENOSPC", "EIO", "EINVAL"},
+	"truncate":        {"ENOSPC", "EFBIG", "EIO", "EPERM"},
+	"fallocate":       {"ENOSPC", "EFBIG", "EIO", "EOPNOTSUPP"},
+	"close":           {"EIO", "ENOSPC", "EDQUOT"},
 }
+
+var callClass = map[string]string{
+	"rename": "rename", "renameat": "rename", "renameat2": "rename",
+	"unlink": "unlink", "unlinkat": "unlink",
+	"link": "link", "linkat": "link",
+	"symlink": "symlink", "symlinkat": "symlink",
+	"mkdir": "mkdir", "mkdirat": "mkdir", "rmdir": "rmdir",
+	"chmod": "chmod", "fchmod": "chmod", "fchmodat": "chmod",
+	"open": "open", "openat": "open", "creat": "open",
+	"write": "write", "pwrite64": "write", "writev": "write", "pwritev": "write", "pwritev2": "write",
+	"copy_file_range": "copy_file_range", "sendfile": "sendfile", "splice": "splice",
+	"truncate": "truncate", "ftruncate": "truncate", "fallocate": "fallocate",
+	"close": "close",
+}
+
+// directory-entry operations: the calls that publish, replace or remove a name
+func isDirEntryOp(call string) bool {
+	switch callClass[call] {
+	case "rename", "unlink", "link", "symlink", "mkdir", "rmdir", "chmod":
+		return true
+	}
+	return false
+}
+
+func isRename(call string) bool { return callClass[call] == "rename" }
+
+// errnosFor: the errnos injected at one boundary. full=false: one per call,
+// except the whole alphabet at directory-entry operations.
+func errnosFor(call string, full bool) []string {
+	a := errnoAlphabet[callClass[call]]
+	if len(a) == 0 {
+		return []string{"EIO"}
+	}
+	if full || isDirEntryOp(call) {
+		return a
+	}
+	return a[:1]
+}
+
+func errnoFor(call string) string { return errnosFor(call, false)[0] }
 
 func main() {
 	relicx.Quiet()
@@ -437,6 +575,24 @@ func main() {
 			scenario{Name: "appx-rewrite", Input: "App1_1.0.3.0_x64.appx", InName: "in.appx", OutName: "out.appx"},
 		)
 	}
+	// Mach-O (binpatch with several ranges: ncmds/sizeofcmds, __LINKEDIT bounds,
+	// LC_CODE_SIGNATURE, signature block) - to another path, and IN PLACE for
+	// the inputs whose patch set is all in-place-eligible (exempt: same inode
+	// afterwards) and for the inputs whose patch set mixes in-place-eligible
+	// ranges with a size-changing range that is not at the tail: an appended
+	// payload after __LINKEDIT, unsigned (signature inserted before the payload)
+	// or signed earlier with a smaller signature block (block grows before the
+	// payload). PE and CAB refuse trailing data, the other binpatch users emit a
+	// single range or start with a size-changing one: Mach-O is the format whose
+	// CLI-reachable patch sets take the mixed shape.
+	const machoFixture = "slimfile.app/dummyapp"
+	scs = append(scs,
+		scenario{Name: "macho-rewrite-newpath", Input: machoFixture, InName: "in.bin", OutName: "out.bin"},
+		scenario{Name: "macho-samepath", Input: machoFixture, InName: "in.bin"},
+		scenario{Name: "macho-appended-payload-samepath", Input: machoFixture, InName: "in.bin", Append: 64},
+		scenario{Name: "macho-resign-grow-samepath", Input: machoFixture, InName: "in.bin", PreSign: []string{"--digest", "sha1"}},
+		scenario{Name: "macho-resign-grow-appended-payload-samepath", Input: machoFixture, InName: "in.bin", PreSign: []string{"--digest", "sha1"}, Append: 64},
+	)
 	if run.Thorough() {
 		// same-path outputs forced onto the rewrite strategy by a second hard link
 		scs = append(scs,
@@ -450,8 +606,36 @@ func main() {
 			scenario{Name: "jar-rewrite-dest-hardlink-of-input", Input: "hello.jar", InName: "in.jar", OutName: "out.jar", OutLink: "hard"},
 			scenario{Name: "cat-wholefile-samepath", Input: "hyperv.cat", InName: "in.cat"},
 			scenario{Name: "manifest-wholefile-samepath", Input: "WindowsFormsApplication1.exe.manifest", InName: "in.exe.manifest"},
+			scenario{Name: "macho-appended-payload-newpath", Input: machoFixture, InName: "in.bin", OutName: "out.bin", Append: 64},
+			scenario{Name: "macho-samepath-hardlinked", Input: machoFixture, InName: "in.bin", HardLink: true},
+			scenario{Name: "macho-resign-samesize-appended-payload-samepath", Input: machoFixture, InName: "in.bin", PreSign: []string{}, Append: 64},
+			// in == out with ONE link for every other patch-based format: judged
+			// when the run replaces the path, exempt when it patches it in place
+			scenario{Name: "pe-samepath", Input: "ClassLibrary1.dll", InName: "in.dll", PE: true},
+			scenario{Name: "ps1-samepath", Input: "hello.ps1", InName: "in.ps1"},
+			scenario{Name: "cab-samepath", Input: "dummy.cab", InName: "in.cab"},
+			scenario{Name: "jar-samepath", Input: "hello.jar", InName: "in.jar"},
+			scenario{Name: "deb-samepath", Input: "zlib1g_1.2.8.dfsg-5_i386.deb", InName: "in.deb"},
+			scenario{Name: "rpm-samepath", Input: "rocky-basesystem-11-13.el9.noarch.rpm", InName: "in.rpm"},
+			scenario{Name: "apk-samepath", Input: "dummy.apk", InName: "in.apk"},
+			scenario{Name: "xap-samepath", Input: "dummy.xap", InName: "in.xap"},
+			scenario{Name: "vsix-samepath", Input: "VSIXProject1.vsix", InName: "in.vsix"},
+			scenario{Name: "appx-samepath", Input: "App1_1.0.3.0_x64.appx", InName: "in.appx"},
+			scenario{Name: "msi-samepath", Input: "dummy.msi", InName: "in.msi"},
 		)
 	}
+	// two-fault family (errno at the commit rename, then a kill at every later
+	// call): quick = one scenario per output strategy + the mixed-shape in-place
+	// input; thorough = every scenario
+	quickTwoFault := map[string]bool{
+		"pe-rewrite-newpath": true, "pe-rewrite-samepath-hardlinked": true, "cat-wholefile": true,
+		"msi-copy-then-edit": true, "pgp-clearsign-merge": true, "pgp-inline-merge": true, "jar-rewrite": true,
+		"macho-rewrite-newpath": true, "macho-appended-payload-samepath": true,
+	}
+	for i := range scs {
+		scs[i].TwoFault = run.Thorough() || quickTwoFault[scs[i].Name]
+	}
+	fullAlphabet := run.Thorough()
 	base := "/dev/shm"
 	if _, err := os.Stat(base); err != nil {
 		base = ""
@@ -469,6 +653,7 @@ func main() {
 		call    string
 		j       int
 		mode    string // kill | error
+		errno   string // error mode: the injected errno
 		refSize int64
 		seqLen  int
 		seq     []string
@@ -476,6 +661,12 @@ func main() {
 	var jobs []job
 	helperJobs := 0
 	totalBoundaries := 0
+	for _, s := range scs {
+		if s.PreSign != nil || s.Append > 0 {
+			inputs[s.Name] = s.buildInput(filepath.Join(root, "presign"))
+		}
+	}
+	var inPlaceExempt, samePathReplaced []string
 	for _, s := range scs {
 		for _, present := range []bool{false, true} {
 			if s.OutName == "" && !present {
@@ -487,6 +678,7 @@ func main() {
 			// pass 0 (twice: the main-thread sequence must be reproducible)
 			d0 := filepath.Join(root, "pass0")
 			p := s.prepare(d0, present)
+			inoBefore, _ := os.Stat(p.in)
 			r0 := trace(d0, s.argv(p), "")
 			if r0.rc != 0 {
 				fmt.Printf("HARNESS-ERROR: scenario %s does not run cleanly (rc=%d): %s\n", s.Name, r0.rc, r0.stderr)
@@ -507,6 +699,20 @@ func main() {
 				if cur, _ := os.ReadFile(p.in); !bytes.Equal(cur, p.inBytes) {
 					run.Violation("input-modified:"+s.Name, "uninterrupted run: the input file differs from what it was before signing to another path", map[string]any{"scenario": s})
 				}
+			}
+			if s.OutName == "" && !s.HardLink {
+				// in == out, one link: is the path being patched in place? Read it
+				// off the file system: same inode afterwards = patched in place (the
+				// statement exempts it); a new inode = the run REPLACED the path,
+				// and then every boundary of that run is judged.
+				if os.SameFile(inoBefore, st) {
+					inPlaceExempt = append(inPlaceExempt, s.Name)
+					run.Outcome("complete-run:same-path-patched-in-place(exempt)")
+					run.Eval(1)
+					continue
+				}
+				samePathReplaced = append(samePathReplaced, s.Name)
+				run.Outcome("complete-run:same-path-replaced-by-new-file(judged)")
 			}
 			p2 := s.prepare(d0, present)
 			r0b := trace(d0, s.argv(p2), "")
@@ -546,7 +752,7 @@ func main() {
 			for c, n := range helperCounts(r0.log) {
 				for j := 1; j <= n; j++ {
 					for _, mode := range []string{"kill", "error"} {
-						jobs = append(jobs, job{s, present, -1, c, j, mode, refSize, len(seq), seq})
+						jobs = append(jobs, job{s, present, -1, c, j, mode, errnoFor(c), refSize, len(seq), seq})
 						helperJobs++
 					}
 				}
@@ -559,13 +765,15 @@ func main() {
 				if c == "write" {
 					jj += rtBefore[k] // strace counts the runtime's eventfd writes too
 				}
-				for _, mode := range []string{"kill", "error"} {
-					jobs = append(jobs, job{s, present, k, c, jj, mode, refSize, len(seq), seq})
+				jobs = append(jobs, job{s, present, k, c, jj, "kill", "", refSize, len(seq), seq})
+				for _, e := range errnosFor(c, fullAlphabet) {
+					jobs = append(jobs, job{s, present, k, c, jj, "error", e, refSize, len(seq), seq})
 				}
 			}
 		}
 	}
 	var covered sync.Map
+	var twoPlanned, twoConfirmed int64
 	vlib.Parallel(len(jobs), 16, func(i int) {
 		jb := jobs[i]
 		d := filepath.Join(root, fmt.Sprintf("j%d", i))
@@ -575,7 +783,7 @@ func main() {
 		if jb.mode == "kill" {
 			inj = fmt.Sprintf("%s:signal=SIGKILL:when=%d", jb.call, jb.j)
 		} else {
-			inj = fmt.Sprintf("%s:error=%s:when=%d", jb.call, errnoFor(jb.call), jb.j)
+			inj = fmt.Sprintf("%s:error=%s:when=%d", jb.call, jb.errno, jb.j)
 		}
 		var r result
 		var seq []string
@@ -612,7 +820,11 @@ func main() {
 			}
 		}
 		id := map[string]any{"scenario": jb.s.Name, "dest_present": jb.present, "boundary": jb.k, "call": jb.call, "occurrence": jb.j, "mode": jb.mode, "inject": inj}
-		desc := fmt.Sprintf("%s dest_present=%v %s at main-thread call #%d (%s, occurrence %d of %d calls)", jb.s.Name, jb.present, jb.mode, jb.k, jb.call, jb.j, jb.seqLen)
+		what := jb.mode
+		if jb.mode == "error" {
+			what = "error " + jb.errno
+		}
+		desc := fmt.Sprintf("%s dest_present=%v %s at main-thread call #%d (%s, occurrence %d of %d calls)", jb.s.Name, jb.present, what, jb.k, jb.call, jb.j, jb.seqLen)
 		if jb.k < 0 {
 			desc = fmt.Sprintf("%s dest_present=%v %s at occurrence %d of %s on whichever thread reaches it first (helper-thread boundary)", jb.s.Name, jb.present, jb.mode, jb.j, jb.call)
 		}
@@ -625,8 +837,8 @@ func main() {
 			fmt.Printf("UNCONFIRMED %s present=%v k=%d call=%s j=%d mode=%s killed=%v rc=%d len=%d rt=%d last=%.120s\n", jb.s.Name, jb.present, jb.k, jb.call, jb.j, jb.mode, r.killed, r.rc, len(sq), rt, last)
 		}
 		if hit {
-			covered.Store(fmt.Sprintf("%s|%v|%d|%s|%s|%d", jb.s.Name, jb.present, jb.k, jb.mode, jb.call, jb.j), true)
-			run.Distinct(fmt.Sprintf("%s|%v|%d|%s|%s|%d", jb.s.Name, jb.present, jb.k, jb.mode, jb.call, jb.j))
+			covered.Store(fmt.Sprintf("%s|%v|%d|%s%s|%s|%d", jb.s.Name, jb.present, jb.k, jb.mode, jb.errno, jb.call, jb.j), true)
+			run.Distinct(fmt.Sprintf("%s|%v|%d|%s%s|%s|%d", jb.s.Name, jb.present, jb.k, jb.mode, jb.errno, jb.call, jb.j))
 		}
 		if r.hung {
 			// a complete run takes ~0.1 s; confirm twice more before believing it
@@ -702,6 +914,96 @@ func main() {
 				run.Violation("success-status-without-output:"+jb.s.Name, fmt.Sprintf("%s: exit 0 but destination is %s", desc, class), id)
 			}
 		}
+		// two-fault histories: the commit rename failed with jb.errno and the
+		// process went on; kill it on entry to each of the calls it made afterwards
+		if jb.mode == "error" && hit && jb.k >= 0 && isRename(jb.call) && jb.s.TwoFault {
+			_, seqE, _, rtE := mainCalls3(r.log)
+			later := len(seqE) - (jb.k + 1)
+			if later > maxLaterCalls {
+				run.Capped(fmt.Sprintf("%s: %d main-thread calls follow the failed %s (%s); the first %d were taken as second-fault points", jb.s.Name, later, jb.call, jb.errno, maxLaterCalls))
+				later = maxLaterCalls
+			}
+			for m := jb.k + 1; m <= jb.k+later; m++ {
+				c := seqE[m]
+				atomic.AddInt64(&twoPlanned, 1)
+				if c == jb.call {
+					// strace keeps one injection rule per system call name
+					run.Capped(fmt.Sprintf("%s: the run calls %s again after the injected failure; a kill there cannot be combined with the first fault", jb.s.Name, c))
+					continue
+				}
+				occ := 0
+				for _, x := range seqE[:m+1] {
+					if x == c {
+						occ++
+					}
+				}
+				base := occ
+				if c == "write" {
+					occ += rtE[m] // strace counts the runtime's eventfd writes too
+				}
+				var inj2 string
+				var r2 result
+				var p2 prepared
+				hit2 := false
+				for attempt := 0; attempt < 6 && !hit2; attempt++ {
+					inj2 = fmt.Sprintf("%s:signal=SIGKILL:when=%d", c, occ)
+					p2 = jb.s.prepare(d, jb.present)
+					r2 = trace(d, jb.s.argv(p2), inj, inj2)
+					run.Eval(1)
+					if r2.hung {
+						break
+					}
+					_, seq2, lines2, rt2 := mainCalls2(r2.log)
+					hit2 = r2.killed && len(seq2) == m+1 && strings.Join(seq2, ",") == strings.Join(seqE[:m+1], ",") && strings.Contains(lines2[jb.k], "(INJECTED)")
+					if !hit2 && c == "write" {
+						// the number of runtime wake-up writes before the boundary varies
+						// between runs: address the next attempt by what this one showed
+						occ = base + rt2
+					}
+				}
+				id2 := map[string]any{"scenario": jb.s.Name, "dest_present": jb.present, "boundary": jb.k, "call": jb.call, "occurrence": jb.j, "mode": "error+kill", "inject": []string{inj, inj2}, "second_boundary": m, "second_call": c}
+				desc2 := fmt.Sprintf("%s; then kill at main-thread call #%d (%s, occurrence %d)", desc, m, c, occ)
+				mode2 := fmt.Sprintf("%s=%s+kill", jb.call, jb.errno)
+				if r2.hung {
+					run.Capped("a two-fault run exceeded the hang limit: " + desc2)
+					continue
+				}
+				if !hit2 && os.Getenv("C13_DEBUG") != "" {
+					_, sq, ln, rt := mainCalls2(r2.log)
+					last := ""
+					if len(ln) > 0 {
+						last = ln[len(ln)-1]
+					}
+					fmt.Printf("UNCONFIRMED-2 %s present=%v k=%d %s=%s m=%d call=%s occ=%d killed=%v rc=%d len=%d rt=%d rtE=%d last=%.120s\n", jb.s.Name, jb.present, jb.k, jb.call, jb.errno, m, c, occ, r2.killed, r2.rc, len(sq), rt, rtE[m], last)
+				}
+				if hit2 {
+					atomic.AddInt64(&twoConfirmed, 1)
+					run.Distinct(fmt.Sprintf("%s|%v|%d|error%s|%s|%d|then-kill|%d", jb.s.Name, jb.present, jb.k, jb.errno, jb.call, jb.j, m))
+				}
+				cls2, det2 := jb.s.classify(p2, jb.refSize)
+				run.Outcome("error+kill:" + cls2)
+				if p2.out != p2.in {
+					if cur, _ := os.ReadFile(p2.in); !bytes.Equal(cur, p2.inBytes) {
+						run.Violation("input-modified:"+jb.s.Name, desc2, id2)
+					}
+				}
+				if jb.s.HardLink {
+					if cur, _ := os.ReadFile(filepath.Join(d, "second-link")); !bytes.Equal(cur, p2.inBytes) {
+						run.Violation("hardlink-sibling-modified:"+jb.s.Name, desc2, id2)
+					}
+				}
+				switch cls2 {
+				case "missing":
+					if p2.oldOut != nil {
+						run.Violation("destination-missing:"+jb.s.Name+":"+mode2, desc2+": destination existed before and is gone", id2)
+					}
+				case "torn", "unreadable":
+					run.Violation("destination-torn:"+jb.s.Name+":"+mode2, desc2+": "+det2, id2)
+				case "stale-pe-checksum":
+					run.Violation("pe-checksum-fixup-after-commit:"+mode2, desc2+": "+det2, id2)
+				}
+			}
+		}
 	})
 	n := 0
 	covered.Range(func(k, v any) bool { n++; return true })
@@ -709,6 +1011,30 @@ func main() {
 	run.Set("injections_planned", len(jobs))
 	run.Set("helper_thread_injections_planned", helperJobs)
 	run.Set("injections_confirmed_from_strace_log", n)
+	run.Set("two_fault_injections_planned", atomic.LoadInt64(&twoPlanned))
+	run.Set("two_fault_injections_confirmed_from_strace_log", atomic.LoadInt64(&twoConfirmed))
+	if twoPlanned != twoConfirmed {
+		run.Capped(fmt.Sprintf("%d of %d two-fault injections were not confirmed at the addressed boundaries; those runs were still judged by the oracle", twoPlanned-twoConfirmed, twoPlanned))
+	}
+	sort.Strings(inPlaceExempt)
+	sort.Strings(samePathReplaced)
+	run.Set("same_path_single_link_patched_in_place_exempt", inPlaceExempt)
+	run.Set("same_path_single_link_replaced_judged", samePathReplaced)
+	var tf []string
+	for _, s := range scs {
+		if s.TwoFault {
+			tf = append(tf, s.Name)
+		}
+	}
+	sort.Strings(tf)
+	run.Set("two_fault_scenarios", tf)
+	alpha := map[string]any{}
+	for c, a := range errnoAlphabet {
+		alpha[c] = a
+	}
+	run.Set("errno_alphabet", alpha)
+	run.Set("errno_alphabet_scope", map[string]any{"full_alphabet_at_every_call": fullAlphabet, "full_alphabet_at_directory_entry_operations": true, "other_calls": "first errno of the call's alphabet"})
+	run.Set("bounds", map[string]any{"max_later_calls_after_failed_commit": maxLaterCalls, "appended_payload_bytes": 64, "hang_limit_s": int(hangLimit / time.Second)})
 	if n != len(jobs) {
 		run.Capped(fmt.Sprintf("%d of %d planned injections were not confirmed at the addressed main-thread boundary (another thread reached the call count first, or the call sequence shifted); those runs were still judged by the oracle", len(jobs)-n, len(jobs)))
 	}
@@ -720,9 +1046,10 @@ func main() {
 	run.Set("scenarios", names)
 	h := sha256.Sum256([]byte(conf))
 	run.Set("driver", map[string]any{"binary": "relic main package built from /repo's current tree + init(){runtime.LockOSThread()}", "config_sha256": fmt.Sprintf("%x", h[:6])})
-	run.Rule("for each output scenario x destination {absent,present}: every main-thread file-system-mutating system call k of a complete `relic sign` run (recorded by strace in pass 0) is a boundary; one run is killed (SIGKILL on entry to call k) and one run has call k fail; in one scenario every killed run is followed by an uninterrupted run that signs a smaller file to the same destination in the directory as the killed run left it; distinct_nontrivial = injections whose strace log confirms the addressed boundary was hit")
+	run.Rule("for each output scenario x destination {absent,present}: every main-thread system call k that opens/closes a file or changes file data, metadata or a directory entry (write family, copy_file_range/sendfile/splice, truncate family, chmod family, rename/link/unlink/mkdir families; recorded by strace in pass 0 of a complete `relic sign` run) is a boundary; one run is killed (SIGKILL on entry to call k) and one run per errno has call k fail - one errno per data call, EVERY errno of the call's alphabet at directory-entry operations (rename*, unlink*, link*, chmod*, mkdir*; thorough: the full alphabet at every call); two-fault histories: for each errno of the rename alphabet at the commit rename, the run is repeated once per later main-thread call with SIGKILL at that call too (quick: one scenario per output strategy + the mixed-shape in-place input; thorough: all scenarios); inputs: the functest samples, plus Mach-O variants derived from the fixture (appended payload after __LINKEDIT, earlier signing run with a smaller signature block) signed IN PLACE, whose patch sets mix in-place-eligible ranges with a size-changing range before the tail; a same-path single-link scenario is judged at every boundary iff its uninterrupted run leaves a NEW inode at the path (replaced), and is exempt iff the inode is the same (patched in place: outside the statement); in one scenario every killed run is followed by an uninterrupted run that signs a smaller file to the same destination in the directory as the killed run left it; distinct_nontrivial = injections whose strace log confirms the addressed boundary (both boundaries for two-fault runs) was hit")
 	run.Assume("process kill only: un-synced data / power loss are outside the statement")
 	run.Assume("'complete new content' = accepted by relic verify with integrity and chain checking (for detached/inline PGP, which relic cannot verify stand-alone: same size as the uninterrupted run's output), and (PE) CheckSum field consistent; byte equality is impossible because signatures embed the signing time")
+	run.Assume("errno alphabets are taken from the man pages for a correct invocation, without errnos that contradict state the process itself created and without EINTR/EAGAIN (no signals are delivered); an errno is injected once, at the addressed occurrence")
 	run.Assume("leftover temporaries after SIGKILL are not a violation; after a handled error or success they are")
 	run.Finish()
 }
